@@ -5,9 +5,11 @@ use crate::props::bitsprops::BitsProp;
 use crate::trees::TreeKind;
 pub use crate::props::quadprops::{C05, C13};
 pub use crate::props::c08::C08;
+pub use crate::props::c17::C17;
 
 pub const C01: SeqExact = SeqExact { id: "C01", kinds: &TreeKind::QUAD_PLAIN };
 pub const C02: SeqExact = SeqExact { id: "C02", kinds: &TreeKind::QUAD_HUFF };
+pub const C09: SeqExact = SeqExact { id: "C09", kinds: &TreeKind::QUAD_ALL };
 pub const C03: SeqExact = SeqExact { id: "C03", kinds: &TreeKind::BINARY };
 
 pub const C06: BitsProp = BitsProp { id: "C06", kinds: &[BitsKind::Narrow, BitsKind::Wide] };
@@ -25,6 +27,8 @@ macro_rules! with_prop {
             "C05" => { let $p = &$crate::registry::C05; $body }
             "C13" => { let $p = &$crate::registry::C13; $body }
             "C08" => { let $p = &$crate::registry::C08; $body }
+            "C17" => { let $p = &$crate::registry::C17; $body }
+            "C09" => { let $p = &$crate::registry::C09; $body }
             other => {
                 eprintln!("unknown property {other}");
                 std::process::exit(2);
